@@ -12,7 +12,8 @@ GENS = [dict(max_n=4, multi=True), dict(max_n=4, multi=True, mixed_heads=True, n
 
 
 def extra(ctx):
-    pass
+    import glue_checks
+    glue_checks.single_suite(ctx, {'labels'}, [dict(max_n=4, multi=True), dict(max_n=4, multi=True, mixed_heads=True, nbest_max=3)], ctx.budget(600, 6000))
 
 
 def run(ctx):
